@@ -434,3 +434,283 @@ Qed.
 Theorem category_groups_independent_of_row_order cr c code tls tls' : Permutation tls tls' ->
   PermutationA geqv (cat_rates code (base_totals cr c tls)) (cat_rates code (base_totals cr c tls')).
 Proof. intros P. rewrite !cat_rates_base_totals. apply groups_permA, pairs_of_perm, P. Qed.
+
+(* ================================================================================================ *)
+(* Part 3 - amounts: group amounts, category amounts and the tax sum                                *)
+(* ================================================================================================ *)
+Lemma mul_compat a p p' : toQ p == toQ p' -> mul a p = mul a p'.
+Proof.
+  intros E. apply amount_eq; [|reflexivity]. rewrite !mul_val. apply roundQ_compat. rewrite E. reflexivity.
+Qed.
+
+Lemma rt_calc_ext c g : rt_ext (rt_calc c g) = rt_ext g.
+Proof. unfold rt_calc. destruct (rt_pct g); reflexivity. Qed.
+Lemma rt_calc_country c g : rt_country (rt_calc c g) = rt_country g.
+Proof. unfold rt_calc. destruct (rt_pct g); reflexivity. Qed.
+
+Lemma same_group_calc c g h : same_group g h = true -> same_group (rt_calc c g) (rt_calc c h) = true.
+Proof.
+  rewrite !same_group_spec, !rt_calc_ext, !rt_calc_country, !rt_calc_pct, !rt_calc_sur. tauto.
+Qed.
+
+(* groups of the same class with the same base get the same amounts: equal percentages as rationals
+   give the same rounded product *)
+Lemma rt_calc_geqv c g h : geqv g h -> geqv (rt_calc c g) (rt_calc c h).
+Proof.
+  intros (S & B & A & U). unfold geqv. split; [apply same_group_calc, S|].
+  rewrite !rt_calc_base. split; [exact B|].
+  apply same_group_spec in S. destruct S as (_ & _ & S). unfold same_rate, opt_eqQ in S.
+  unfold rt_calc. destruct (rt_pct g) as [p|], (rt_pct h) as [p'|]; try tauto; cbn [rt_amount rt_suramount].
+  destruct S as [Ep Es]. unfold pct_of. rewrite B. split; [apply mul_compat, Ep|].
+  destruct (rt_sur g) as [s|], (rt_sur h) as [s'|]; try tauto.
+  apply mul_compat, Es.
+Qed.
+
+Lemma ct_step_geqv cr c st g h : geqv g h -> ct_step cr c st g = ct_step cr c st h.
+Proof.
+  intros (S & B & A & U). apply same_group_spec in S. destruct S as (_ & _ & S). unfold same_rate, opt_eqQ in S.
+  unfold ct_step. destruct (rt_pct g) as [p|], (rt_pct h) as [p'|]; try tauto.
+  destruct S as [_ Es]. rewrite A, U. destruct (rt_sur g) as [s|], (rt_sur h) as [s'|]; try tauto.
+Qed.
+
+Lemma ct_step_comm cr c st g h : ct_step cr c (ct_step cr c st g) h = ct_step cr c (ct_step cr c st h) g.
+Proof.
+  unfold ct_step. destruct st as [a o].
+  destruct (rt_pct g), (rt_pct h); try reflexivity;
+    destruct (rt_sur g), (rt_sur h); cbn [fst snd]; rewrite (acc_rr_comm cr a); try reflexivity.
+  f_equal. f_equal. apply acc_rr_comm.
+Qed.
+
+Lemma fold_permA {A S} (eqA : A -> A -> Prop) (f : S -> A -> S) :
+  (forall s x y, eqA x y -> f s x = f s y) -> (forall s x y, f (f s x) y = f (f s y) x) ->
+  forall l l', PermutationA eqA l l' -> forall s, fold_left f l s = fold_left f l' s.
+Proof.
+  intros R C l l' P. induction P as [|x y l l' E _ IH|x y l|l l' l'' _ IH1 _ IH2]; intros s; cbn [fold_left].
+  - reflexivity.
+  - rewrite (R s x y E). apply IH.
+  - rewrite C. reflexivity.
+  - rewrite IH1. apply IH2.
+Qed.
+
+Lemma map_permA {A B} (RA : A -> A -> Prop) (RB : B -> B -> Prop) (f : A -> B) :
+  (forall x y, RA x y -> RB (f x) (f y)) ->
+  forall l l', PermutationA RA l l' -> PermutationA RB (map f l) (map f l').
+Proof.
+  intros R l l' P. induction P as [|x y l l' E _ IH|x y l|l l' l'' _ IH1 _ IH2]; cbn [map].
+  - constructor.
+  - apply permA_skip; [apply R, E|exact IH].
+  - apply permA_swap.
+  - eapply permA_trans; eauto.
+Qed.
+
+(* categories: same code, retention flag and figures; the same groups up to order *)
+Definition ceqv (a b : cat_total) : Prop :=
+  ct_code a = ct_code b /\ ct_retained a = ct_retained b /\ ct_amount a = ct_amount b /\
+  ct_surcharge a = ct_surcharge b /\ ct_precise a = ct_precise b /\ PermutationA geqv (ct_rates a) (ct_rates b).
+(* before the amounts are calculated *)
+Definition ceqv_base (a b : cat_total) : Prop :=
+  ct_code a = ct_code b /\ ct_retained a = ct_retained b /\ PermutationA geqv (ct_rates a) (ct_rates b).
+
+Global Instance ceqv_equiv : Equivalence ceqv.
+Proof.
+  split.
+  - intros a. unfold ceqv. repeat split. reflexivity.
+  - intros a b (A & B & C & D & E & F). unfold ceqv. repeat split; try congruence. symmetry. exact F.
+  - intros a b d (A & B & C & D & E & F) (A' & B' & C' & D' & E' & F'). unfold ceqv. repeat split; try congruence.
+    etransitivity; eauto.
+Qed.
+Global Instance ceqv_base_equiv : Equivalence ceqv_base.
+Proof.
+  split.
+  - intros a. unfold ceqv_base. repeat split. reflexivity.
+  - intros a b (A & B & F). unfold ceqv_base. repeat split; try congruence. symmetry. exact F.
+  - intros a b d (A & B & F) (A' & B' & F'). unfold ceqv_base. repeat split; try congruence.
+    etransitivity; eauto.
+Qed.
+
+Lemma ct_calc_ceqv cr c a b : ceqv_base a b -> ceqv (ct_calc cr c a) (ct_calc cr c b).
+Proof.
+  intros (A & B & F). unfold ceqv, ct_calc. cbn [ct_code ct_retained ct_amount ct_surcharge ct_precise ct_rates].
+  assert (P : PermutationA geqv (map (rt_calc c) (ct_rates a)) (map (rt_calc c) (ct_rates b))).
+  { apply (map_permA geqv geqv); [apply rt_calc_geqv|exact F]. }
+  rewrite (fold_permA geqv (ct_step cr c) (ct_step_geqv cr c) (ct_step_comm cr c) _ _ P).
+  repeat split; assumption.
+Qed.
+
+Lemma rt_round_geqv c g h : geqv g h -> geqv (rt_round c g) (rt_round c h).
+Proof.
+  intros (S & B & A & U). unfold geqv, rt_round. cbn [rt_base rt_amount rt_suramount]. rewrite B, A, U.
+  repeat split. apply same_group_spec in S. apply same_group_spec. exact S.
+Qed.
+
+Lemma ct_round_ceqv c a b : ceqv a b -> ceqv (ct_round c a) (ct_round c b).
+Proof.
+  intros (A & B & C & D & E & F). unfold ceqv, ct_round. cbn [ct_code ct_retained ct_amount ct_surcharge ct_precise ct_rates].
+  rewrite C, D. repeat split; try assumption. apply (map_permA geqv geqv); [apply rt_round_geqv|exact F].
+Qed.
+
+(* ---------------- categories up to order ---------------- *)
+(* retention is a property of the category (the regime's flag), not of the row *)
+Definition retained_consistent (tls : list tax_line) : Prop :=
+  forall tl cb tl' cb', In tl tls -> In cb (tl_taxes tl) -> In tl' tls -> In cb' (tl_taxes tl') ->
+    cb_cat cb = cb_cat cb' -> cb_retained cb = cb_retained cb'.
+Definition retained_by (ret : bytes -> bool) (tls : list tax_line) : Prop :=
+  forall tl cb, In tl tls -> In cb (tl_taxes tl) -> cb_retained cb = ret (cb_cat cb).
+
+Lemma retained_fun tls : retained_consistent tls -> exists ret, retained_by ret tls.
+Proof.
+  intros H.
+  exists (fun code => match find (fun cb => eqb_bytes (cb_cat cb) code) (flat_map tl_taxes tls) with
+                      | Some cb => cb_retained cb | None => false end).
+  intros tl cb Itl Icb.
+  assert (Iall : In cb (flat_map tl_taxes tls)) by (apply in_flat_map; eauto).
+  destruct (find _ _) as [cb0|] eqn:E.
+  - apply find_some in E. destruct E as [I0 E0]. apply eqb_bytes_eq in E0.
+    apply in_flat_map in I0. destruct I0 as (tl0 & Itl0 & Icb0).
+    apply (H tl cb tl0 cb0); auto.
+  - pose proof (find_none _ _ E cb Iall) as N. cbn beta in N. rewrite eqb_bytes_refl in N. discriminate.
+Qed.
+
+Lemma retained_by_perm ret tls tls' : Permutation tls tls' -> retained_by ret tls -> retained_by ret tls'.
+Proof. intros P H tl cb I. apply H. eapply Permutation_in; [apply Permutation_sym; exact P|exact I]. Qed.
+
+Definition cats_ret (ret : bytes -> bool) (cts : list cat_total) : Prop :=
+  Forall (fun ct => ct_retained ct = ret (ct_code ct)) cts.
+
+Lemma add_to_cats_ret ret cr c tot cb cts : cb_retained cb = ret (cb_cat cb) ->
+  cats_ret ret cts -> cats_ret ret (add_to_cats cr c tot cb cts).
+Proof.
+  intros H. unfold cats_ret. induction cts as [|ct r IH]; intros F; cbn [add_to_cats].
+  - constructor; [|constructor]. cbn [ct_with_rates new_ct ct_retained ct_code]. exact H.
+  - inversion F as [|? ? F1 F2]; subst. destruct (eqb_bytes (ct_code ct) (cb_cat cb)); constructor; auto.
+Qed.
+
+Lemma base_totals_ret ret cr c tls : retained_by ret tls -> cats_ret ret (base_totals cr c tls).
+Proof.
+  unfold base_totals.
+  assert (G : forall cts, retained_by ret tls -> cats_ret ret cts -> cats_ret ret (fold_left (add_tl cr c) tls cts)).
+  { induction tls as [|tl r IH]; intros cts H W; cbn [fold_left]; [exact W|].
+    apply IH; [intros t cb It; apply H; right; exact It|].
+    assert (Htl : forall cb, In cb (tl_taxes tl) -> cb_retained cb = ret (cb_cat cb)) by (intros cb; apply H; left; reflexivity).
+    unfold add_tl. generalize (tl_total tl) as tot. intros tot. clear - Htl W.
+    revert cts W. induction (tl_taxes tl) as [|cb l IHl]; intros cts W; cbn [fold_left]; [exact W|].
+    apply IHl; [intros x Ix; apply Htl; right; exact Ix|].
+    apply add_to_cats_ret; [apply Htl; left; reflexivity|exact W]. }
+  intros H. apply G; [exact H|constructor].
+Qed.
+
+Lemma cats_sub ret cr c tls tls' : Permutation tls tls' -> retained_by ret tls ->
+  forall ct, In ct (base_totals cr c tls) -> InA ceqv_base ct (base_totals cr c tls').
+Proof.
+  intros P H ct Ict.
+  destruct (groups_pairwise_distinct cr c tls) as [ND _].
+  pose proof (find_cat_nodup _ ct ND Ict) as E. set (code := ct_code ct) in *.
+  pose proof (has_cat_base_totals cr c code tls) as P1. unfold has_cat in P1. rewrite E in P1.
+  pose proof (has_cat_base_totals cr c code tls') as P2. unfold has_cat in P2.
+  rewrite <- (nonempty_perm _ _ (pairs_of_perm code tls tls' P)), <- P1 in P2.
+  destruct (find_cat code (base_totals cr c tls')) as [ct'|] eqn:E'; [|discriminate].
+  destruct (find_cat_some _ _ _ E') as [I' C'].
+  apply InA_alt. exists ct'. split; [|exact I'].
+  pose proof (category_groups_independent_of_row_order cr c code tls tls' P) as G.
+  unfold cat_rates in G. rewrite E, E' in G.
+  pose proof (base_totals_ret ret cr c tls H) as R1.
+  pose proof (base_totals_ret ret cr c tls' (retained_by_perm ret tls tls' P H)) as R2.
+  unfold cats_ret in R1, R2. rewrite Forall_forall in R1, R2.
+  unfold ceqv_base. split; [symmetry; exact C'|]. split; [|exact G].
+  rewrite (R1 ct Ict), (R2 ct' I'). fold code. rewrite C'. reflexivity.
+Qed.
+
+Lemma codes_NoDupA cts : NoDup (map ct_code cts) -> NoDupA ceqv_base cts.
+Proof.
+  induction cts as [|x r IH]; cbn [map]; intros N; constructor; inversion N as [|? ? N1 N2]; subst.
+  - intros I. apply InA_alt in I. destruct I as (y & (C & _) & Iy). apply N1. rewrite C. apply in_map, Iy.
+  - apply IH, N2.
+Qed.
+
+Theorem base_categories_independent_of_row_order cr c tls tls' :
+  Permutation tls tls' -> retained_consistent tls ->
+  PermutationA ceqv_base (base_totals cr c tls) (base_totals cr c tls').
+Proof.
+  intros P H. destruct (retained_fun tls H) as (ret & Hr).
+  pose proof (retained_by_perm ret tls tls' P Hr) as Hr'.
+  apply NoDupA_equivlistA_PermutationA.
+  - exact ceqv_base_equiv.
+  - apply codes_NoDupA, groups_pairwise_distinct.
+  - apply codes_NoDupA, groups_pairwise_distinct.
+  - intros x. split; intros Ix; apply InA_alt in Ix; destruct Ix as (g & E & Ig).
+    + apply (InA_eqA ceqv_base_equiv (x := g)); [symmetry; exact E|]. apply (cats_sub ret cr c tls tls' P Hr g Ig).
+    + apply (InA_eqA ceqv_base_equiv (x := g)); [symmetry; exact E|].
+      apply (cats_sub ret cr c tls' tls (Permutation_sym P) Hr' g Ig).
+Qed.
+
+(* ---------------- the tax sum ---------------- *)
+Lemma signedQ_ceqv a b : ceqv a b -> signedQ a = signedQ b.
+Proof. intros (_ & B & C & D & _). unfold signedQ. rewrite B, C, D. reflexivity. Qed.
+
+Lemma sumQ_signed_permA l l' : PermutationA ceqv l l' -> sumQ_signed l == sumQ_signed l'.
+Proof.
+  intros P. unfold sumQ_signed.
+  induction P as [|x y l l' E _ IH|x y l|l l' l'' _ IH1 _ IH2]; cbn [fold_right].
+  - reflexivity.
+  - rewrite (signedQ_ceqv x y E), IH. reflexivity.
+  - ring.
+  - rewrite IH1. exact IH2.
+Qed.
+
+Lemma sum_step_exp cr s ct : exp (sum_step cr s ct) = if cr then exp s else Nat.max (exp s) (exp (ct_amount ct)).
+Proof.
+  unfold sum_step.
+  assert (K : exp (match_rr cr s (ct_amount ct)) = if cr then exp s else Nat.max (exp s) (exp (ct_amount ct))).
+  { unfold match_rr. destruct cr; [reflexivity|]. apply match_precision_exp. }
+  destruct (ct_retained ct), (ct_surcharge ct); cbn [sub add exp]; exact K.
+Qed.
+
+Definition max_amount_exp (cts : list cat_total) (m : nat) : nat :=
+  fold_left (fun m ct => Nat.max m (exp (ct_amount ct))) cts m.
+
+Lemma sum_fold_exp cr cts : forall s,
+  exp (fold_left (sum_step cr) cts s) = if cr then exp s else max_amount_exp cts (exp s).
+Proof.
+  unfold max_amount_exp. induction cts as [|ct r IH]; intros s; cbn [fold_left].
+  - destruct cr; reflexivity.
+  - rewrite IH, sum_step_exp. destruct cr; reflexivity.
+Qed.
+
+Lemma max_amount_exp_permA l l' m : PermutationA ceqv l l' -> max_amount_exp l m = max_amount_exp l' m.
+Proof.
+  intros P. unfold max_amount_exp. apply (fold_permA ceqv); [| |exact P].
+  - intros s x y (_ & _ & C & _). rewrite C. reflexivity.
+  - intros s x y. lia.
+Qed.
+
+Lemma toQ_exp_eq a b : toQ a == toQ b -> exp a = exp b -> a = b.
+Proof.
+  intros Q E. apply amount_eq; [|exact E]. apply toQ_eq_iff in Q. rewrite E in Q.
+  pose proof (pow10_pos (exp b)) as Pp. apply Z.mul_cancel_r in Q; [exact Q|lia].
+Qed.
+
+Lemma tax_sum_permA cr c l l' : PermutationA ceqv (map (ct_calc cr c) l) (map (ct_calc cr c) l') ->
+  fold_left (sum_step cr) (map (ct_calc cr c) l) (zero_of c) = fold_left (sum_step cr) (map (ct_calc cr c) l') (zero_of c).
+Proof.
+  intros P. apply toQ_exp_eq.
+  - rewrite !tax_sum_signed. apply sumQ_signed_permA, P.
+  - rewrite !sum_fold_exp. destruct cr; [reflexivity|]. apply max_amount_exp_permA, P.
+Qed.
+
+(* ---------------- main theorem, rows level ---------------- *)
+Theorem tax_summary_independent_of_row_order cr c tls tls' :
+  Permutation tls tls' -> retained_consistent tls ->
+  let cats := map (ct_round c) (map (ct_calc cr c) (base_totals cr c tls)) in
+  let cats' := map (ct_round c) (map (ct_calc cr c) (base_totals cr c tls')) in
+  PermutationA ceqv cats cats' /\
+  fold_left (sum_step cr) (map (ct_calc cr c) (base_totals cr c tls)) (zero_of c) =
+  fold_left (sum_step cr) (map (ct_calc cr c) (base_totals cr c tls')) (zero_of c).
+Proof.
+  intros P H. cbv zeta.
+  pose proof (base_categories_independent_of_row_order cr c tls tls' P H) as B.
+  assert (C : PermutationA ceqv (map (ct_calc cr c) (base_totals cr c tls)) (map (ct_calc cr c) (base_totals cr c tls'))).
+  { apply (map_permA ceqv_base ceqv); [apply ct_calc_ceqv|exact B]. }
+  split.
+  - apply (map_permA ceqv ceqv); [apply ct_round_ceqv|exact C].
+  - apply tax_sum_permA, C.
+Qed.
